@@ -89,7 +89,7 @@ impl ZReorderMap {
     /// - The file cannot be opened
     /// - The file is too small (< 16 bytes for header)
     /// - The header contains invalid data
-    /// - The first entry cannot be read
+    /// - An entry cannot be read, or the entries do not add up to the header's size
     ///
     /// # Examples
     ///
@@ -136,6 +136,23 @@ impl ZReorderMap {
             index: 0,
             sign: 0,
         };
+
+        map.rewind()?;
+
+        // Walk all RLE entries once: they must add up to exactly `size` elements.
+        // next() cannot report an error, so a file cut short inside a later entry
+        // has to be refused here instead of silently delivering fewer elements.
+        let mut total = map.seq_length;
+        while total < map.size {
+            map.read_entry()?;
+            total = total.saturating_add(map.seq_length);
+        }
+        if total != map.size {
+            return Err(ZiporaError::invalid_data(format!(
+                "ZReorderMap entries cover {} elements, header says {}",
+                total, map.size
+            )));
+        }
 
         map.rewind()?;
         Ok(map)
